@@ -237,6 +237,7 @@ def run_property(
             'checker_cmd': f'/venv/bin/python /verif/check.py {prop} --tier {tier}',
             'trusted_base': TRUSTED_BASE,
             'notes': ctx.notes,
+            'folded_new_helpers': list(getattr(prog, 'fold_log', [])),
             'analysis_errors': errors,
             'exhaustive': False,
         }  # fmt: skip
